@@ -18,4 +18,4 @@ for d in sorted(ds, key=lambda p: (p.split('/')[-1].split('-')[0], int(p.rsplit(
     if len(summ) > 150:
         summ = summ[:147].rsplit(' ', 1)[0] + ' ...'
     print("| %s | %s | %s %s | %s |" % (name, summ, name.split('-')[0], cl.group(1) if cl else '?',
-                                       ('**not detected**' if m.get('undetected') else '**missed at first**' if 'note' in c else '')))
+                                       ('**thorough tier only**' if m.get('detected_thorough') else '**not detected**' if m.get('undetected') else '**missed at first**' if 'note' in c else '')))
